@@ -87,7 +87,7 @@ def genOps2 : List (String × R String) := [
       -- python-ecdsa as parameters: the signer replays the logged attempts (attempt k is asked for with entropy i_to_b32(k)),
       -- the DER codec is the Spec's
       let atts ← listOf bytes; let ht ← nat
-      let sign := fun (ent : Option Bytes) => match ent with
+      let sign := fun (_dg : Bytes) (ent : Option Bytes) => match ent with
         | none => atts.getD 0 []
         | some b => atts.getD (Py.ofBE b) []
       let dec := fun (b : Bytes) (_ : Int) => match Spec.derDecode b with
@@ -278,6 +278,34 @@ def genOps3 : List (String × R String) := [
   ("g:tx_parse", do
       let b ← bytes
       pure (ansG (fun t => showTx (backTx t)) (Gen.transaction_from_raw Gen.CODE_OPS b))),
+  ("g:pk_sign", do
+      -- the public ECDSA signing methods: python-ecdsa's signer answers with the logged attempts when it is handed the expected digest
+      -- (and with nothing otherwise), the DER codec is the Spec's
+      let seg ← bool; let t ← tx; let i ← nat; let code ← toks; let amt ← int; let ht ← nat; let want ← bytes; let atts ← listOf bytes
+      let py := fun (ts : List Spec.Tok) => ts.map fun t => match t with
+        | Spec.Tok.op n => Py.PyTok.name n | Spec.Tok.int n => Py.PyTok.int n | Spec.Tok.data d => Py.PyTok.data d
+      let sign := fun (dg : Bytes) (ent : Option Bytes) => if dg != want then ([] : Bytes) else match ent with
+        | none => atts.getD 0 []
+        | some b => atts.getD (Py.ofBE b) []
+      let dec := fun (b : Bytes) (_ : Int) => match Spec.derDecode b with
+        | some (r, s) => (Except.ok ((r : Int), (s : Int)) : Except PyErr (Int × Int))
+        | none => .error .valueError
+      let enc := fun (r s _n : Int) => Spec.derEncode r.toNat s.toNat
+      let ins := t.inputs.map fun i => (⟨i.txid, i.index, py i.scriptSig, i.sequence⟩ : Py.PyTxIn)
+      let outs := t.outputs.map fun o => (⟨o.amount, py o.script⟩ : Py.PyTxOut)
+      pure (ansG hex (if seg then
+        Gen.pk_sign_segwit_input Crypto.sha256 Gen.OP_CODES sign dec enc (atts.length - 1) t.version ins outs t.locktime (i : Int) (py code) amt (ht : Int)
+      else
+        Gen.pk_sign_input Crypto.sha256 Gen.OP_CODES sign dec enc (atts.length - 1) t.version ins outs (t.witnesses.map Py.PyWit.mk) t.locktime
+          (i : Int) (py code) (ht : Int)))),
+  ("g:pk_sign_tr", do
+      let priv ← bytes; let pub ← bytes; let t ← tx; let i ← nat; let spks ← listOf toks; let amts ← listOf int; let sp ← bool
+      let leaf ← toks; let s ← scripts; let ht ← nat; let tw ← bool
+      let py := fun (ts : List Spec.Tok) => ts.map fun t => match t with
+        | Spec.Tok.op n => Py.PyTok.name n | Spec.Tok.int n => Py.PyTok.int n | Spec.Tok.data d => Py.PyTok.data d
+      pure (ansG hex (Gen.pk_sign_taproot_input Crypto.sha256 Gen.OP_CODES priv pub t.version
+        (t.inputs.map fun i => ⟨i.txid, i.index, py i.scriptSig, i.sequence⟩)
+        (t.outputs.map fun o => ⟨o.amount, py o.script⟩) t.locktime (i : Int) (spks.map py) amts sp (py leaf) (pyScripts s) (ht : Int) tw))),
   ("g:dig_legacy", do
       let t ← tx; let i ← nat; let code ← toks; let ht ← nat
       let py := fun (ts : List Spec.Tok) => ts.map fun t => match t with
